@@ -517,7 +517,7 @@ package signal
 //@   insts named
 //@   mode precise
 //@   pure
-//@   ensures[width: C13] result == width(T)
+//@   ensures[width: C13 C06 C07 C08 C09] result == width(T)
 
 //@ func Alloc[T](a)
 //@   props C10 C12 C13
